@@ -105,6 +105,11 @@ Monotone == \A t \in -1..MaxT, w \in 0..MaxW, c1 \in -1..(MaxT + 1), c2 \in -1..
               (0 <= c1 /\ c1 <= c2) => PR(t, c1, w) <= PR(t, c2, w)
 Bounded  == \A t \in -1..MaxT, w \in 0..MaxW, c \in -1..(MaxT + 1) : PR(t, c, w) >= 0 /\ PR(t, c, w) <= w
 
+(* The machine above is a function of the parameter vector p alone: a bar filler with a single tip frame keeps no
+   state from one frame to the next.  The driver checks this history-independence on the real filler: the same
+   statistics drawn after a full frame with a refill mark, and after the same counters under another total, give the
+   bytes a fresh filler gives. *)
+
 (* the spinner filler (bar_filler_spinner.go) with a frame as wide as the tip: the frame is
    positioned within the allotted width, or nothing is drawn when it does not fit *)
 SpinnerOut == IF Allot < p.tw THEN 0 ELSE Allot
